@@ -477,7 +477,7 @@ pub fn run(ctx: &mut Ctx) {
         decoded through Reader (read_info, every frame, finish); plus ALL chunk-kind sequences up to a bounded length over {IHDR,PLTE,tRNS,IDAT,acTL,fcTL,fdAT,IEND,tEXt,private} checked against a reference automaton of the listed ordering rules; \
         non-trivial = every injected case / sequences of length >= 2; distinct = hash of the file".into();
     let mut rng = ctx.rng.fork(1);
-    let n = ctx.n(60, 1500);
+    let n = ctx.n(240, 1500);
     for i in 0..n {
         let mut r = rng.fork(i as u64);
         let mut inj = vec![];
